@@ -424,10 +424,49 @@ def registry_histories(tier):
     return bfs(RegistryOverTime(), 3 if tier == "thorough" else 2, budget_s=1500)
 
 
+# ------------------------------------------------------------------ E3: two header validations at the same time
+T_HEADERS = [("jws", {"alg": "HS256"}), ("jws", {"alg": "HS256", "kid": 5}), ("jws", {"alg": "HS256", "tenant": 7}), ("jws", {"alg": "HS256", "crit": ["exp"]}),
+             ("jws", {"alg": "HS256", "tenant": "t1", "kid": "k"}), ("jwe", {"alg": "A128KW", "enc": "A128GCM"}), ("jwe", {"alg": "A128KW", "enc": "A128GCM", "zip": 5}),
+             ("jwe", {"alg": "A128KW", "enc": "A128GCM", "tenant": "t1"})]
+
+
+def h_threads(ctx):
+    """Two productions on registries of one process at the same time, one of them with an invalid header: whatever the schedule,
+    accepted => valid, and the valid one is accepted."""
+    from .. import conc
+    from joserfc import jws, jwe
+    from joserfc.registry import HeaderParameter
+
+    def op(spec):
+        fam, hdr = spec
+
+        def run(sh):
+            if fam == "jws":
+                return (spec, call(jws.serialize_compact, copy.deepcopy(hdr), b"x", sh["k32"], registry=sh["S"]))
+            return (spec, call(jwe.encrypt_compact, copy.deepcopy(hdr), b"x", sh["k16"], registry=sh["E"]))
+        return (f"{fam} produce {hdr}", run)
+
+    def shared():
+        hr = {"tenant": HeaderParameter("tenant of the caller", "str")}
+        return {"k32": A.jkey(scen.key("oct32"), "dict"), "k16": A.jkey(scen.key("oct16"), "dict"),
+                "S": jws.JWSRegistry(header_registry=dict(hr), algorithms=["HS256"]), "E": jwe.JWERegistry(header_registry=dict(hr), algorithms=["A128KW", "A128GCM"])}
+
+    def judge(name, o, sh):
+        (fam, hdr), r = o
+        reasons = RH.invalid_reasons(hdr, fam, False, True, {"tenant": (RH.STR, False)}, False)
+        if r.ok and reasons:
+            return (f"{fam.upper()} produce accepts an invalid header while another header is validated [{reasons[0].split(' has ')[0] if ' has ' in reasons[0] else reasons[0]}]", f"{name}: {reasons}")
+        if not r.ok and not reasons:
+            return (f"{fam.upper()} produce rejects a valid header while another header is validated", f"{name}: {r.exc!r}")
+        return None
+    return conc.pairs(ctx, [op(s_) for s_ in T_HEADERS], shared, judge, thorough=config.thorough())
+
+
 PARTS = [
     Part("jws-headers", h_jws, bound={"quick": 1, "thorough": 2}, split_depth=4, budget={"quick": 1200, "thorough": 1800}),
     Part("jwe-headers", h_jwe, bound={"quick": 1, "thorough": 1}, split_depth=4, budget={"quick": 1200, "thorough": 1800}),
     Part("jwe-several-recipients", h_jwe_recipients, split_depth=4),
     Part("jwe-object-edited-and-encrypted-again", h_jwe_object_again, split_depth=4),
     Part("registries-over-time", custom=registry_histories, engine="E2"),
+    Part("thread-schedules", h_threads, bound={"quick": 1, "thorough": 2}, split_depth=2, budget={"quick": 2000, "thorough": 3000}, engine="E3"),
 ]
